@@ -401,16 +401,18 @@ fn v2_window_recs(ver: RootVersion, recs: &[RRec]) -> bool {
 }
 
 /// bytes that START like a classic V2 header (magic, total, named) in that window — and are not a
-/// genuine extended (V3/V4) file: a genuine one has header_size / version in the same two words,
-/// but then it parses to exactly the number of records its own total_files word states
+/// genuine extended (V3/V4) file: a genuine one has header_size / version (1..4) in the same two
+/// words, but then it parses to exactly the number of records its own total_files word states
 fn root_v2_window(b: &[u8]) -> bool {
     let magic = b.len() >= 12 && (&b[..4] == b"TSFM" || &b[..4] == b"MFST");
     let (t, nm) = if magic { (u32::from_le_bytes([b[4], b[5], b[6], b[7]]), u32::from_le_bytes([b[8], b[9], b[10], b[11]])) } else { (0, 0) };
     if !(magic && (16..100).contains(&t) && nm < 10) {
         return false;
     }
+    // (an extended header has its version, 1..4, where a classic one has named_files)
     let genuine_ext = b.len() >= 20
         && &b[..4] == b"TSFM"
+        && (1..=4).contains(&nm)
         && catch(AssertUnwindSafe(|| RootFile::parse(b))).ok().and_then(|r| r.ok()).is_some_and(|r| {
             let n: usize = r.blocks.iter().map(|x| x.records.len()).sum();
             n > 0 && n as u32 == u32::from_le_bytes([b[12], b[13], b[14], b[15]])
@@ -685,6 +687,9 @@ fn shape(fmt: &str, stage: &str, input: &[u8], out: &Out) -> String {
             let blk = input.get(22..22 + esz).unwrap_or(&[]);
             if std::str::from_utf8(blk).is_err() {
                 "espec-not-utf8".to_string()
+            } else if input.len() > 4 && (input[3] != 16 || input[4] != 16) {
+                // header with a CKey / EKey hash size other than 16 (EncodingBuilder writes 16-byte keys only)
+                "key-hash-size-not-16".to_string()
             } else if <EncodingFile as CascFormat>::parse(input).is_ok_and(|e| e.ekey_pages.iter().flat_map(|p| p.entries.iter()).any(|x| e.espec_table.get(x.espec_index).is_none())) {
                 // an EKey entry whose ESpec index points outside the ESpec table (the parser accepts it)
                 "espec-index-out-of-table".to_string()
